@@ -364,26 +364,19 @@ func runC04(c *Ctx) {
 
 	// ---- handles
 	{
-		// visitor closure passed to Cache.Query in processSubscription
+		// visitor passed to Cache.Query by processSubscription (or a helper it delegates the walk to)
 		found := 0
-		for _, ci := range callsIn(procSub) {
-			if staticCallee(ci.Common()) != cacheQuery {
-				continue
-			}
-			for _, a := range ci.Common().Args {
-				mc, ok := unwrap(a).(*ssa.MakeClosure)
-				if !ok {
-					continue
-				}
-				vf := mc.Fn.(*ssa.Function)
-				c.Analysed(fnName(vf))
-				for _, ic := range callsIn(vf) {
+		for _, vf := range walkVisitors(P, procSub, cacheQuery) {
+			c.Analysed(fnName(vf))
+			leafP := leafParam(vf)
+			for _, g := range withAnon(vf) {
+				for _, ic := range callsIn(g) {
 					if calleeName(ic.Common()) != "(*coalesce.Queue).Insert" {
 						continue
 					}
 					found++
 					arg := unwrap(ic.Common().Args[1])
-					okH := len(vf.Params) >= 2 && arg == ssa.Value(vf.Params[1]) && isNamed(arg.Type(), "ctree", "Leaf")
+					okH := leafP != nil && arg == leafP
 					c.Check(okH, "C04.handles", fnName(vf), "walk visitor inserts its leaf handle", P.Pos(ic.Pos()), "inserted: "+Expr(arg))
 				}
 			}
@@ -650,8 +643,63 @@ func markerPlacement(c *Ctx, rule string) {
 				reach := reachableFrom(b.Succs[0])[markerInstr.Block()]
 				c.Check(!reach, rule, fnName(procSub), "no marker after a failed step: "+Expr(bo), P.Pos(posOf(ifi)), fmt.Sprintf("marker reachable from error edge: %v", reach))
 			}
-			c.Floor(rule+"/error-checks", nChecks, 2)
+			c.Floor(rule+"/error-checks", nChecks, 1)
 		}
 	}
 
+}
+
+// walkVisitors: the functions handed to Cache.Query as visitor by f or by same-package helpers
+// f delegates to: function literals, named functions and bound methods (x.visit).
+func walkVisitors(P *Prog, f, cacheQuery *ssa.Function) []*ssa.Function {
+	var out []*ssa.Function
+	seen := map[*ssa.Function]bool{}
+	var scan func(g *ssa.Function, d int)
+	scan = func(g *ssa.Function, d int) {
+		if seen[g] || d > 2 {
+			return
+		}
+		seen[g] = true
+		for _, h := range withAnon(g) {
+			for _, ci := range callsIn(h) {
+				cal := staticCallee(ci.Common())
+				if cal == cacheQuery {
+					for _, a := range ci.Common().Args {
+						switch x := unwrap(a).(type) {
+						case *ssa.MakeClosure:
+							fn := x.Fn.(*ssa.Function)
+							if strings.HasSuffix(fn.Name(), "$bound") {
+								for _, bc := range callsIn(fn) {
+									if m := staticCallee(bc.Common()); m != nil && len(m.Blocks) > 0 {
+										fn = m
+									}
+								}
+							}
+							out = append(out, fn)
+						case *ssa.Function:
+							if len(x.Blocks) > 0 {
+								out = append(out, x)
+							}
+						}
+					}
+					continue
+				}
+				if cal != nil && cal.Pkg == f.Pkg && len(cal.Blocks) > 0 {
+					scan(cal, d+1)
+				}
+			}
+		}
+	}
+	scan(f, 0)
+	return out
+}
+
+// leafParam: the *ctree.Leaf parameter of a visitor.
+func leafParam(vf *ssa.Function) ssa.Value {
+	for _, p := range vf.Params {
+		if isNamed(p.Type(), "ctree", "Leaf") {
+			return p
+		}
+	}
+	return nil
 }
